@@ -49,6 +49,7 @@ class Profile:
 HOSTILE = Profile()
 # str() injective across types; bools never next to 0/1
 CLEAN = Profile("clean", strings="alpha", bool_with_01=False, numeric_strings=False)
+LARGE = Profile("large", strings="hostile", maxd=5, width=8)
 PLAIN = Profile("plain", strings="alpha", bool_with_01=False, numeric_strings=False, floats=False, big_ints=False)
 
 
